@@ -153,7 +153,7 @@ theorem C03_mcentroid_touch_guarded (mp : MPoly) (sss : List (List Spell))
     (hclosed : ∀ ss ∈ sss, ∀ s ∈ ss, s.closed = true)
     (hv : ∀ p ∈ mp, ValidAny p = true)
     (hW : ((mp.flatMap weights).map (·.1)).sum ≠ 0) :
-    multiPolygonCentroid (List.zipWith respell sss mp) = (.fin (mcentroid mp).x, .fin (mcentroid mp).y) := by
+    multiPolygonCentroidScaled (List.zipWith respell sss mp) = (.fin (mcentroid mp).x, .fin (mcentroid mp).y) := by
   rw [C03_mcentroid_guard]; exact C03_mcentroid_touch mp sss hlen hclosed hv hW
 
 /-- **Centroid clause (Polygon), rings apart or touching in single points**, for `Polygon.Centroid` as
@@ -163,7 +163,7 @@ theorem C03_centroid_valid_touch (p : Poly) (ss : List Spell) (hlen : ss.length 
     (b : Bool) (hb : ∀ s ∈ ss, s.rev = b)
     (hv : ValidAny p = true) (halt : Alternating p = true)
     (hW : (p.map fun r => shoelace2 r / 2).sum ≠ 0) :
-    polygonCentroid (respell ss p) = .ok (.fin (Spec.centroid p).x, .fin (Spec.centroid p).y) := by
+    polygonCentroidScaled (respell ss p) = .ok (.fin (Spec.centroid p).x, .fin (Spec.centroid p).y) := by
   rw [C03_centroid_guard]
   have h : ∀ r ∈ p, shoelace2 r ≠ 0 := fun r hr => shoelace_ne_of_simple (simple_of_validAny hv r hr)
   have h' : ∀ r' ∈ respell ss p, shoelace2 r' ≠ 0 := by
